@@ -90,6 +90,7 @@ class TLCResult:
         self.violated += re.findall(r'Error: Action property (\S+) is violated', out)
         if re.search(r'Error: Temporal properties were violated', out):
             self.violated.append('<temporal>')
+        self.violated += re.findall(r'Error: Temporal property (\S+) was violated', out)
         if re.search(r'Error: Deadlock reached', out):
             self.violated.append('<deadlock>')
         self.finished = 'Model checking completed' in out or 'Finished in' in out
